@@ -14,7 +14,7 @@ cvlib.QUICK_FILTER['C10'] = [
     r'C18\.O6\..*', r'C18\.O2\.copy_ts_then_add', r'C18\.O2\.copy_ts_n3', r'C18\.O3\.ds_fivenum_n1', r'C18\.O4\.(ts_)?auto_const_n2', r'C14\.O3\.ts_add_.*',
     r'C03\.O2\.first_activation(_ndebug)?',
     r'C13\.O3\.cancel_remove_subscribe', r'C04\.O3\.wait_process', r'C04\.O2\.timers',
-    r'C16\.O2\.(loaded_dice|hyperexponential|alias_sample|geometric.*)', r'C16\.O4\.(exp|nor)_not_hot',
+    r'C16\.O2\.(loaded_dice|hyperexponential|alias_sample|geometric.*)', r'C16\.O4\.(exp|nor)_not_hot', r'C16\.O3\.codegen_index_.*',
 ]
 # groups whose NAMED obligations also count for C10: the representation invariant of a growable container, re-proved
 # after the growth step, is the induction hypothesis under which every later access is in bounds
